@@ -374,14 +374,15 @@ func c09TagScenario(n int, dotu bool, P int) Scenario {
 			if err := tag.Read(f, uint64(i), 8); err != nil {
 				vs.Fail("Tag.Read: %v", err)
 			}
-			want = append(want, fmt.Sprintf("%x", peerReadData(uint32(40+i), uint64(i), 8)))
+			want = append(want, fmt.Sprintf("fid%d@%d=%x", 40+i, i, peerReadData(uint32(40+i), uint64(i), 8)))
 		}
 		for i := 0; i < n; i++ {
 			r := vs.Recv(rc)
 			if r.Rc == nil {
 				got = append(got, "nil")
 			} else {
-				got = append(got, fmt.Sprintf("%x", r.Rc.Data))
+				// the completion pairs a request with a reply: both are looked at
+				got = append(got, fmt.Sprintf("fid%d@%d=%x", r.Tc.Fid, r.Tc.Offset, r.Rc.Data))
 			}
 		}
 		vs.Idle()
@@ -559,6 +560,11 @@ func c09Scenarios(tier string) []Scenario {
 	out = append(out, c09TagScenario(2, true, P), c09TagScenario(3, false, 2))
 	// more completions than the Tag's channels hold (16 + the consumer's 8): the reader has to wait for the late consumer
 	out = append(out, c09TagScenario(30, true, 1), c09TagScenario(40, false, 1))
+	// ... and far more than any plausible channel capacity
+	out = append(out, c09TagScenario(100, false, 1))
+	if tier == "thorough" {
+		out = append(out, c09TagScenario(300, true, 1))
+	}
 	n := 70000 // more than the 65535 tags there are
 	if tier == "thorough" {
 		n = 70000
@@ -572,7 +578,7 @@ func init() {
 	_ = wire.NOTAG
 	register(&Property{ID: "C09", Level: "model_checking",
 		Technique: "stateless model checking of the real client (Rpc callers, recv, send goroutines) against a scripted peer under the controlled scheduler, all schedules within a preemption bound",
-		Rule:      "k<=3 (thorough 5) caller goroutines with 1-2 calls each (read/stat/walk/write/clunk on distinct fids), the peer holding the first round until all are outstanding and answering in every permutation (k<=4; every 5th of the 120 for k=5), one frame per write or all in one, each reply matching/Rerror/wrong type; every schedule with at most P deviations from the deterministic default scheduler (delay bounding: every non-default scheduling choice counts, preemptive or not; select-case choices free) from the first call to the last return; pipelined Tag interface with 2-3 requests; one run of 3000 (thorough 70000) consecutive calls for tag and slot recycling. distinct = distinct per-object operation orders",
+		Rule:      "k<=3 (thorough 5) caller goroutines with 1-2 calls each (read/stat/walk/write/clunk on distinct fids), the peer holding the first round until all are outstanding and answering in every permutation (k<=4; every 5th of the 120 for k=5), one frame per write or all in one, each reply matching/Rerror/wrong type; every schedule with at most P deviations from the deterministic default scheduler (delay bounding: every non-default scheduling choice counts, preemptive or not; select-case choices free) from the first call to the last return; pipelined Tag interface with 2-3 requests, and with 30, 40 and 100 (thorough 300) requests whose consumer starts late; one run of 3000 (thorough 70000) consecutive calls for tag and slot recycling. distinct = distinct per-object operation orders",
 		Assumptions: []string{"code between two synchronisation operations is atomic (race-free executions)", "callers use distinct fids so a reply identifies its request"},
 		Scenarios:   c09Scenarios, QuickS: 110, ThoroughS: 1500})
 }
